@@ -97,10 +97,13 @@ def all_records(reg):
             for bogus in ("bogus_step", "", "Compute_tip_position"):
                 lst = base[:pos] + [bogus] + base[pos:]
                 recs.append(observe(lst, "unknown", factory))
+    # the list of available steps, as the library hands it out AFTER all
+    # the accepted and refused requests above (and once more from scratch)
+    av = list(preproc.available())
+    recs.append(observe(av, "available", factory))
     preproc.available.cache_clear()
     av = list(preproc.available())
-    rec = observe(av, "available", factory)
-    recs.append(rec)
+    recs.append(observe(av, "available", factory))
     return recs
 
 
